@@ -508,7 +508,7 @@ func gen(r *rand.Rand, tier string, n int) []any {
 	words := []string{"", "__name__", "job", "instance", "le", "up", "http_requests_total", "a", "b", "trace_id", "x\ny", "ünï", "0.5", "node-1:9100", "=", "aa", "a", ""}
 	maxSeries, maxLabels := 4, 6
 	if tier == "thorough" {
-		maxSeries, maxLabels = 12, 16
+		maxSeries, maxLabels = 7, 10
 	}
 	word := func() string {
 		w := words[r.Intn(len(words))]
@@ -555,6 +555,6 @@ func gen(r *rand.Rand, tier string, n int) []any {
 }
 
 func main() {
-	common.Main(common.Prop{ID: "C25", Gen: gen, Run: run, QuickN: 250, ThoroughN: 4000,
+	common.Main(common.Prop{ID: "C25", Gen: gen, Run: run, QuickN: 250, ThoroughN: 1500,
 		Preamble: "Open Scope Z_scope.\n"})
 }
